@@ -1001,3 +1001,99 @@ class C17Value(E2Harness):
             self.require(ex, zb(okc) == zor(in0, in1), 'compatibility verdict differs from the item table (item listed with a mask containing the target version)')
         else:
             self.require(ex, zb(okc), 'a value without version restrictions is reported incompatible')
+
+
+# =====================================================================================================
+# C18: the perfect-hash name lookups (hashfunc + from_bytes MIR of the specification crate)
+# =====================================================================================================
+TABLES = {'attr': ('attributename.rs', 'attributename::AttributeName', 'AttributeName'),
+          'enum': ('enumitem.rs', 'enumitem::EnumItem', 'EnumItem'),
+          'elem': ('elementname.rs', 'elementname::ElementName', 'ElementName')}
+
+
+def install_spec_consts(ex):
+    """associated constants the MIR names but does not print: read from the specification crate's source"""
+    import os
+    import re
+    from mirexec import str_slice
+    if 'hashfunc::HASHCONST1' in ex.models.consts:
+        return
+    src = open(os.path.join(REPO, 'autosar-data-specification', 'src', 'lib.rs'), encoding='utf-8').read()
+    for m in re.finditer(r'const (HASHCONST\d): u32 = (0x[0-9A-Fa-f_]+);', src):
+        ex.models.consts[f'hashfunc::{m.group(1)}'] = mk_int(int(m.group(2).replace('_', ''), 16), 'u32')
+    for key, (fname, path, ty) in TABLES.items():
+        tab = string_table(fname)
+        ex.models.consts[f'{path}::STRING_TABLE'] = Agg('array', None, [str_slice(t) for t in tab])
+
+
+@register
+class C18Names(E2Harness):
+    table = 'attr'
+    mode = 'complete'      # complete: symbolic item index -> from_bytes(to_str(i)) == Ok(i) ; sound: symbolic text of length n
+    n = 2
+    part = None
+    native = ('spec', 'n_c18_names')
+    max_visits = 256
+
+    def run(self, ex):
+        install_spec_consts(ex)
+        fname, path, ty = TABLES[self.table]
+        f = [x for x in ex.prog.raw if x.endswith('::from_bytes') and fname in x]
+        if len(f) != 1:
+            raise Unsupported(f'from_bytes of {fname}: {len(f)} candidates')
+        tab = string_table(fname)
+        if self.mode == 'complete':
+            idx = z3.BitVec('item', 16)
+            ex.assume(z3.ULT(idx, len(tab)))
+            if self.part is not None:
+                ex.assume(z3.URem(idx, self.part[1]) == self.part[0])
+            self.idx = idx
+            i = ex.concretize(I(idx, False, 'u16'), limit=len(tab) + 1)
+            text = tab[i]
+            r = ex.call(f[0], [Slice([bv(c, 8) for c in text], 0, len(text), False)])
+            return ('complete', i, r)
+        self.bs = sym_bytes('b', self.n)
+        if self.part is not None and self.n > 0:
+            ex.assume(z3.URem(self.bs[0], self.part[1]) == self.part[0])
+        r = ex.call(f[0], [Slice(self.bs, 0, self.n, False)])
+        return ('sound', None, r)
+
+    def replay_vals(self, m):
+        t = ['attr', 'enum', 'elem'].index(self.table)
+        if self.mode == 'complete':
+            return [[t], [0], le_bytes(m.eval(self.idx, model_completion=True).as_long(), 2)]
+        return [[t], [1], le_bytes(self.n, 8)] + [[x] for x in model_bytes(m, self.bs)]
+
+    def describe(self, m):
+        if self.mode == 'complete':
+            return f'item {m.eval(self.idx, model_completion=True)}'
+        return repr(bytes(model_bytes(m, self.bs)))
+
+    def prop(self, out, ex):
+        if out[0] == 'panic':
+            self.require(ex, False, 'from_bytes panicked: ' + out[1])
+            return
+        kind, i, r = out[1]
+        tab = string_table(TABLES[self.table][0])
+        if kind == 'complete':
+            self.cover('item looked up')
+            if r.variant != 'Ok':
+                self.require(ex, False, 'the text of an item is not accepted by from_bytes')
+                return
+            self.require(ex, r.fields[0].e == bv(i, 16), 'text -> item returns a different item')
+            return
+        if r.variant == 'Ok':
+            self.cover('text accepted')
+            x = r.fields[0]
+            c = x.conc()
+            if c is None:
+                c = ex.concretize(x, limit=64)
+            self.require(ex, c < len(tab), 'from_bytes returned an item outside the table')
+            if c < len(tab):
+                self.require(ex, bytes_eq(list(self.bs), [bv(ch, 8) for ch in tab[c]]), 'from_bytes accepted a text that is not the item\'s text')
+        else:
+            self.cover('text rejected')
+            # a rejected text must not be the text of any item (items of this length)
+            same = [bytes_eq(list(self.bs), [bv(ch, 8) for ch in t]) for t in tab if len(t) == self.n]
+            if same:
+                self.require(ex, znot(zor(*same)), 'from_bytes rejected the text of an item')
